@@ -521,7 +521,7 @@ def r10(ctx):
         raise AnalysisBroken('calls through qb_log_target.logger: %d' % n)
 
 
-def r11(ctx):
+def r11(ctx, rule='R11'):
     prog = ctx.prog
     tfns = [g for g in prog.all_fns(files={'lib/log_thread.c'})]
     drains = set(_drain_helpers(prog))
@@ -535,7 +535,7 @@ def r11(ctx):
         dr = [ev for ev in g.events('CALL') if ev.callee in drains]
         if locks and not unl:
             ok = bool(dr) and all(any(g.ev_dominates(l, d) for d in dr) and g.must_pass(('after', l), lambda ev: ev.kind == 'CALL' and ev.callee in drains)[0] for l in locks)
-            ctx.check('R11', '%s:writes-the-queue-out' % g.name, ok, locks[0], '%s takes the lock and writes out every queued record before its caller changes anything' % g.name,
+            ctx.check(rule, '%s:writes-the-queue-out' % g.name, ok, locks[0], '%s takes the lock and writes out every queued record before its caller changes anything' % g.name,
                       '%s only keeps the logging thread out: records queued for the old configuration are written (or dropped, or written twice) under the new one' % g.name)
             openers.add(g.name)
         elif unl and not locks and not dr:
@@ -584,7 +584,7 @@ def r11(ctx):
             if lf == ('qb_log_target', 'threaded') and cval(unwrap(st.rhs)) is None:
                 n += 1
                 ok, where = judged(g, st, 'threaded')
-                ctx.check('R11', '%s:threaded-switch-inside-bracket' % g.name, ok, st, 'the threaded switch changes with the queue written out and the thread kept out',
+                ctx.check(rule, '%s:threaded-switch-inside-bracket' % g.name, ok, st, 'the threaded switch changes with the queue written out and the thread kept out',
                           'a target\'s threaded switch is changed while records may be queued: switched on, the thread writes the backlog to a target that has '
                           'already written those lines itself (duplicates); switched off, the target\'s backlog is never written and nothing is reported lost')
     # (2) filters / tags of existing call sites: the function that stores a filter and applies it to the sections
@@ -595,7 +595,7 @@ def r11(ctx):
     aps = list(core.calls('_log_filter_apply'))
     n += 1
     ok, where = judged(core, aps[0], 'filters')
-    ctx.check('R11', 'filter-change-inside-bracket', ok, (where[1] if where else aps[0]),
+    ctx.check(rule, 'filter-change-inside-bracket', ok, (where[1] if where else aps[0]),
               'every way into %s is inside a pause/quiesce bracket or behind the stop of the thread' % core.name,
               'filters or tags of existing call sites are changed (%s) while records may be queued: the logging thread decides from the call site\'s target bits '
               'when it writes, so what was logged for a target before the change is dropped or delivered according to the new filters' % (where[0].name if where else core.name))
@@ -607,10 +607,19 @@ def r11(ctx):
                 if any(ev.blk in body for body in loops.values()) and g.name != 'qb_log_callsites_register' and not g.static:
                     n += 1
                     ok, where = judged(g, ev, 'custom')
-                    ctx.check('R11', '%s:custom-filter-inside-bracket' % g.name, ok, ev, 'the custom filter function is run over the call sites inside a bracket',
+                    ctx.check(rule, '%s:custom-filter-inside-bracket' % g.name, ok, ev, 'the custom filter function is run over the call sites inside a bracket',
                               'the custom filter function is run over existing call sites while records may be queued')
     if n < 3:
-        raise AnalysisBroken('R11: only %d routing changes found' % n)
+        raise AnalysisBroken(rule + ': only %d routing changes found' % n)
+
+
+def routing_changes(ctx, rule):
+    """C16.R11 under another property's rule id (C12: one delivery per call also across a change of the routing)"""
+    fns = [f for f in ctx.prog.all_fns(files={'lib/log_thread.c'})]
+    ENTRY.clear()
+    ENTRY.update(entry_locks(fns))
+    WRITERS[:] = _find_writers(fns)
+    r11(ctx, rule)
 
 
 def r12(ctx, fns):
